@@ -1814,7 +1814,7 @@ func declareStructs(c px.Context, t *gty, seen map[reflect.Type]px.Type, withPar
 	if withParent && declaredParent(t) != nil {
 		// @objregp: the embedded first field is the DECLARED parent (its attributes are inherited, the field gets none):
 		// FromReflectedValue / ToReflectedValue then descend into the embedded struct with the parent type
-		parentDecl = "parent => " + seen[fields[0].t.rtype()].Name() + ", "
+		parentDecl = "parent => " + seen[declaredParent(t).rtype()].Name() + ", "
 		fields = fields[1:]
 	}
 	for _, f := range fields {
@@ -1872,7 +1872,7 @@ func objreg(c px.Context, t *gty, ve sx.Sexp, withParent bool) core.Result {
 	// of the embedded parent first, then the own
 	fieldVals := func(st *gty, sv reflect.Value) []fieldVal {
 		if withParent {
-			return attrFieldVals(st, sv)
+			return declaredFieldVals(st, sv)
 		}
 		out := []fieldVal{}
 		for i, f := range st.fields {
@@ -1911,6 +1911,12 @@ func objreg(c px.Context, t *gty, ve sx.Sexp, withParent bool) core.Result {
 	// every struct value inside the value goes through FromReflectedValue / ToReflectedValue of its own type
 	cause := ""
 	walkStructs(t, gv, func(st *gty, sv reflect.Value) {
+		if withParent && declaredParent(st) != nil && st.fields[0].t.kind == "ptr" && sv.Field(0).IsNil() {
+			// a nil embedded pointer to the DECLARED parent: the parent's attributes have no value to take (FromReflectedValue
+			// faults on the zero Value; notes/C18-mutation-sweep.md) — no instance of the declared type corresponds to it
+			na = true
+			tags = append(tags, "nil-parent-pointer")
+		}
 		for _, fv := range fieldVals(st, sv) {
 			if f := fv.f; cause == "" && f.t.kind != "struct" && !(f.t.kind == "ptr" && f.t.elem.kind == "struct") {
 				cause = instCause(f.t, fv.v, false, false)
@@ -2779,6 +2785,7 @@ func gen(g *core.G) {
 	g.Emit("@refl (struct (A iface) (B (struct (X bool)))) (st (i (struct (X bool)) (st t)) (st f))")
 	g.Emit("@obj (struct (A iface) (B (struct (X bool)))) (st (i (ptr (struct (X bool))) (p (st t))) (st f))")
 	genIfaceStructs(g)
+	genDeclaredParents(g)
 	// tags of other kinds beside the puppet tag (they become a TagsAnnotation of the attribute; implementation only)
 	g.Emit(`@obj (struct (A (int 8) ` + sx.Str(`json:"a" puppet:"name=>'x'"`).Atom + `) (B string ` + sx.Str(`json:"bb,omitempty" yaml:"b"`).Atom + `)) (st 3 x61)`)
 	g.Emit(`@refl (struct (A (ptr string) ` + sx.Str(`lyra:"ignore" puppet:"value=>'d'"`).Atom + `)) (st nil)`)
